@@ -782,6 +782,45 @@ func runC15ConnAttempt(c *mon.Case, variant string, attempt int) {
 		kind := "contract"
 		c.Shard.Violate(kind+"|"+variant, variant+": "+v, rep)
 	}
+	// After Close both calls fail, at once, on either end (whoever still
+	// holds the connection must not be served by it, nor crash).
+	if len(viol) == 0 {
+		cleanup()
+		for name, cn := range map[string]net.Conn{"writer": w, "reader": r} {
+			type res struct {
+				n   int
+				err error
+				p   any
+			}
+			try := func(f func() (int, error)) res {
+				ch := make(chan res, 1)
+				go func() {
+					var o res
+					defer func() { o.p = recover(); ch <- o }()
+					o.n, o.err = f()
+				}()
+				select {
+				case o := <-ch:
+					return o
+				case <-time.After(20 * time.Second):
+					return res{err: fmt.Errorf("still blocked after 20 s"), n: -1}
+				}
+			}
+			ow := try(func() (int, error) { return cn.Write([]byte("after close")) })
+			or := try(func() (int, error) { return cn.Read(make([]byte, 16)) })
+			switch {
+			case ow.p != nil || or.p != nil:
+				c.Shard.Violate("contract|"+variant+"|after-close-panics", fmt.Sprintf("%s: a call on the %s's connection after Close panicked: write %v / read %v", variant, name, ow.p, or.p), rep)
+			case ow.n == -1 || or.n == -1:
+				c.Shard.Violate("contract|"+variant+"|after-close-blocks", fmt.Sprintf("%s: a call on the %s's connection after Close blocked: write %v / read %v", variant, name, ow.err, or.err), rep)
+			case ow.err == nil:
+				c.Shard.Violate("contract|"+variant+"|write-after-close-accepted", fmt.Sprintf("%s: Write on the %s's connection after Close returned n=%d, err=nil", variant, name, ow.n), rep)
+			case or.err == nil && or.n > 0:
+				c.Shard.Violate("contract|"+variant+"|read-after-close-data", fmt.Sprintf("%s: Read on the %s's connection after Close returned %d bytes", variant, name, or.n), rep)
+			}
+		}
+		c.Shard.Count("calls_after_close_checked", 4)
+	}
 	c.Shard.Count("bytes_"+variant, int64(got))
 	c.Shard.Count("transfers_"+variant, 1)
 	if small && large {
